@@ -719,10 +719,28 @@ int main(int argc, char **argv) {
       F.addFnAttr(Attribute::AlwaysInline);
     }
   }
-  // 3. inline + normalise.
-  runPipeline(*M, "always-inline,always-inline,"
-                  "function(sroa,early-cse,sccp,instsimplify,simplifycfg,adce,"
-                  "sroa,early-cse,sccp,instsimplify,simplifycfg,adce)");
+  // 3. inline + normalise; helpers that become pure leaves once their own helpers were
+  //    inlined (is_end -> clear_flag, ...) are picked up in further rounds.
+  const char *Pipe = "always-inline,always-inline,"
+                     "function(sroa,early-cse,sccp,instsimplify,simplifycfg,adce,"
+                     "sroa,early-cse,sccp,instsimplify,simplifycfg,adce)";
+  runPipeline(*M, Pipe);
+  for (int Round = 0; Round < 3; Round++) {
+    unsigned New = 0;
+    for (auto &F : *M) {
+      if (F.isDeclaration() || F.hasFnAttribute(Attribute::AlwaysInline)) continue;
+      if (Stop.count(F.getName().str())) continue;
+      if (F.hasInternalLinkage() && isPureLeaf(F)) {
+        F.removeFnAttr(Attribute::NoInline);
+        F.removeFnAttr(Attribute::OptimizeNone);
+        F.addFnAttr(Attribute::AlwaysInline);
+        New++;
+        NLeaf++;
+      }
+    }
+    if (!New) break;
+    runPipeline(*M, Pipe);
+  }
   if (verifyModule(*M, &errs())) {
     errs() << "irfacts: module broken after normalisation\n";
     return 2;
